@@ -16,7 +16,7 @@ Qed.
 
 Lemma wrapper_total_lemma :
   forall e, is_exception e = true ->
-  exists e', check_property_wrapper (CleanRaise e) = Exc e' S_lib /\ subclass e' K_InvalidValueError = true.
+  exists e', check_property_wrapper (CleanRaise e None) = Exc e' S_lib /\ subclass e' K_InvalidValueError = true.
 Proof.
   intros e He. unfold check_property_wrapper.
   destruct (subclass e K_InvalidValueError) eqn:Hs.
@@ -25,10 +25,11 @@ Proof.
 Qed.
 
 Lemma wrapper_never_returns_other :
-  forall r e s, check_property_wrapper r = Exc e s ->
+  forall r e s, (forall e0 sf, r = CleanRaise e0 sf -> sf = None) -> check_property_wrapper r = Exc e s ->
   s = S_lib /\ (subclass e K_InvalidValueError = true \/ is_exception e = false).
 Proof.
-  intros r e s. destruct r as [|e0]; simpl; [discriminate|].
+  intros r e s Hsf. destruct r as [|e0 sf]; simpl; [discriminate|].
+  rewrite (Hsf e0 sf eq_refl).
   destruct (subclass e0 K_InvalidValueError) eqn:Hs.
   - intros H; inversion H; subst. split; [reflexivity|left; exact Hs].
   - destruct (is_exception e0) eqn:He; intros H; inversion H; subst; split; try reflexivity.
@@ -36,11 +37,17 @@ Proof.
     + right; exact He.
 Qed.
 
+(* the wrapper words the reason with str(exc) INSIDE its handler: if that raises, that exception is what escapes *)
+Lemma wrapper_str_failure :
+  forall e e', is_exception e = true -> subclass e K_InvalidValueError = false ->
+  check_property_wrapper (CleanRaise e (Some e')) = Exc e' S_lib.
+Proof. intros e e' He Hs. unfold check_property_wrapper. rewrite Hs, He. reflexivity. Qed.
+
 (* classes not derived from Exception (KeyboardInterrupt, SystemExit, GeneratorExit) pass through unchanged *)
 Lemma wrapper_passes_non_exceptions :
-  forall e, is_exception e = false -> check_property_wrapper (CleanRaise e) = Exc e S_lib.
+  forall e sf, is_exception e = false -> check_property_wrapper (CleanRaise e sf) = Exc e S_lib.
 Proof.
-  intros e He. unfold check_property_wrapper.
+  intros e sf He. unfold check_property_wrapper.
   destruct (subclass e K_InvalidValueError) eqn:Hs; [reflexivity|]. rewrite He. reflexivity.
 Qed.
 
@@ -456,12 +463,13 @@ Lemma ok_clean_any : forall V ac io s ov, ok V (clean_any ac io s ov).
 Proof. intros. unfold clean_any. apply ok_may. repeat constructor. Qed.
 
 Lemma ok_clean_via : forall V (cl : blackbox),
-  (forall ac io s ov e, cl ac io s ov = CleanRaise e -> is_exception e = true) ->
+  well_behaved cl ->
   forall ac io s ov, ok V (clean_via cl ac io s ov).
 Proof.
   intros V cl Hcl ac io s ov. unfold clean_via, lift.
-  destruct (cl ac io s ov) as [|e] eqn:E; [repeat constructor|].
-  destruct (wrapper_total_lemma e (Hcl _ _ _ _ _ E)) as [e' [He' Hs]]. rewrite He'.
+  destruct (cl ac io s ov) as [|e sf] eqn:E; [repeat constructor|].
+  destruct (Hcl _ _ _ _ _ _ E) as [Hex ->].
+  destruct (wrapper_total_lemma e Hex) as [e' [He' Hs]]. rewrite He'.
   constructor; [left; apply subclass_trans_IVE_family; exact Hs|constructor].
 Qed.
 
